@@ -103,13 +103,13 @@ theorem map_const_replicate {α β} (f : α → β) (k : β) : ∀ (l : List α)
 
 /-- `guess_delimiter` when, on every inspected line, `d` occurs `k ≥ 1` times and the other
     candidates do not occur -/
-theorem guessDelimiter_of_counts (d : Char) (hd : d ∈ preferred) (k : Nat) (hk : 1 ≤ k) (lines : List Str)
-    (hne : (lines.filter (fun l => !isBlank l)).take 20 ≠ [])
-    (hcount : ∀ c ∈ preferred, ∀ l ∈ (lines.filter (fun l => !isBlank l)).take 20,
+theorem guessDelimiter_of_counts (n : Nat) (d : Char) (hd : d ∈ preferred) (k : Nat) (hk : 1 ≤ k) (lines : List Str)
+    (hne : (lines.filter (fun l => !isBlank l)).take n ≠ [])
+    (hcount : ∀ c ∈ preferred, ∀ l ∈ (lines.filter (fun l => !isBlank l)).take n,
         l.count c = if c = d then k else 0) :
-    guessDelimiter lines = d := by
+    guessDelimiter n lines = d := by
   unfold guessDelimiter
-  generalize hL : (lines.filter (fun l => !isBlank l)).take 20 = L at *
+  generalize hL : (lines.filter (fun l => !isBlank l)).take n = L at *
   have hn : 1 ≤ L.length := by
     cases L with
     | nil => exact absurd rfl hne
@@ -303,11 +303,11 @@ theorem vote_data (o : NumOracle F) (h : Str) (hh : DataCell o h) : voteOf o (ty
   simp
 
 /-- `has_header` over a first line `H` followed by at least one numeric row of the same width -/
-theorem hasHeader_core (o : NumOracle F) (d : Char) (hd : d ∈ preferred) (H : List Str) (rows : List (List Str))
+theorem hasHeader_core (o : NumOracle F) (n : Nat) (d : Char) (hd : d ∈ preferred) (H : List Str) (rows : List (List Str))
     (hH : H ≠ []) (hHp : ∀ c ∈ H, PlainCell c ∧ isBlank c = false) (hrows : rows ≠ [])
     (hdata : ∀ r ∈ rows, r.length = H.length ∧ ∀ x ∈ r, DataCell o x) (v : Int)
     (hv : ∀ h ∈ H, voteOf o (tyOf h) h = v) :
-    hasHeader o (splitLines (renderPlain d (H :: rows))) d = decide (v * H.length > 0) := by
+    hasHeader o n (splitLines (renderPlain d (H :: rows))) d = decide (v * H.length > 0) := by
   have hcells : ∀ r ∈ H :: rows, ∀ c ∈ r, PlainCell c ∧ isBlank c = false := by
     intro r hr c hc
     simp only [List.mem_cons] at hr
@@ -352,7 +352,7 @@ theorem hasHeader_core (o : NumOracle F) (d : Char) (hd : d ∈ preferred) (H : 
     intro r hr
     simp [(hdata r hr).1]
   rw [hsame]
-  cases htk : rows.take 22 with
+  cases htk : rows.take (n + 2) with
   | nil =>
     cases rows with
     | nil => exact absurd rfl hrows
@@ -369,9 +369,9 @@ theorem hasHeader_core (o : NumOracle F) (d : Char) (hd : d ∈ preferred) (H : 
         fold_types o H rs (fun r hr => hdata r (hmem r (by simp [hr]))), votes_const o v H hv]
     simp only [hvotes]
 
-theorem guessDelimiter_plain (d : Char) (hd : d ∈ preferred) (w : Nat) (hw : 2 ≤ w) (all : List (List Str))
+theorem guessDelimiter_plain (n : Nat) (hn : 1 ≤ n) (d : Char) (hd : d ∈ preferred) (w : Nat) (hw : 2 ≤ w) (all : List (List Str))
     (hall : all ≠ []) (hcells : ∀ r ∈ all, r.length = w ∧ ∀ c ∈ r, PlainCell c ∧ isBlank c = false) :
-    guessDelimiter (splitLines (renderPlain d all)) = d := by
+    guessDelimiter n (splitLines (renderPlain d all)) = d := by
   have hne : ∀ r ∈ all, r ≠ [] := by
     intro r hr h
     have := (hcells r hr).1
@@ -392,11 +392,14 @@ theorem guessDelimiter_plain (d : Char) (hd : d ∈ preferred) (w : Nat) (hw : 2
     obtain ⟨r, hr, rfl⟩ := hl
     simp [plainLine_not_blank d r (hne r hr) (fun c hc => ((hcells r hr).2 c hc).2)]
   rw [hlines]
-  apply guessDelimiter_of_counts d hd (w - 1) (by omega)
+  apply guessDelimiter_of_counts n d hd (w - 1) (by omega)
   · rw [hnb]
     cases all with
     | nil => exact absurd rfl hall
-    | cons a b => simp
+    | cons a b =>
+      cases n with
+      | zero => omega
+      | succ m => simp
   · intro c hc l hl
     rw [hnb] at hl
     have hl' := List.mem_of_mem_take hl
@@ -405,9 +408,9 @@ theorem guessDelimiter_plain (d : Char) (hd : d ∈ preferred) (w : Nat) (hw : 2
     rw [count_plainLine d c r (hne r hr) (fun cell hcell hm => (((hcells r hr).2 cell hcell).1 c hm).1 hc),
       (hcells r hr).1]
 
-theorem sniffer_unambiguous (o : NumOracle F) (d : Char) (hdr : Option (List Str)) (rows : List (List Str))
-    (h : Unambiguous o d hdr rows) :
-    sniffer o (splitLines (renderPlain d (hdr.toList ++ rows))) = (d, hdr.isSome) := by
+theorem sniffer_unambiguous (o : NumOracle F) (n : Nat) (hn : 1 ≤ n) (d : Char) (hdr : Option (List Str))
+    (rows : List (List Str)) (h : Unambiguous o d hdr rows) :
+    sniffer o n (splitLines (renderPlain d (hdr.toList ++ rows))) = (d, hdr.isSome) := by
   obtain ⟨w, hw, hrw, hhw⟩ := h.width
   have hcells : ∀ r ∈ hdr.toList ++ rows, r.length = w ∧ ∀ c ∈ r, PlainCell c ∧ isBlank c = false := by
     intro r hr
@@ -416,7 +419,7 @@ theorem sniffer_unambiguous (o : NumOracle F) (d : Char) (hdr : Option (List Str
     · exact ⟨hhw r hr, fun c hc => ⟨(h.head r hr c hc).1, (h.head r hr c hc).2.1⟩⟩
     · exact ⟨hrw r hr, fun c hc => ⟨(h.data r hr c hc).1, (h.data r hr c hc).2.1⟩⟩
   have hrows2 := h.two
-  have hg := guessDelimiter_plain d h.delim w hw (hdr.toList ++ rows)
+  have hg := guessDelimiter_plain n hn d h.delim w hw (hdr.toList ++ rows)
     (by cases rows with
         | nil => simp at hrows2
         | cons a b => simp) hcells
@@ -426,7 +429,7 @@ theorem sniffer_unambiguous (o : NumOracle F) (d : Char) (hdr : Option (List Str
   cases hdr with
   | some H =>
     have hHw := hhw H rfl
-    have := hasHeader_core o d h.delim H rows
+    have := hasHeader_core o n d h.delim H rows
       (by intro hn; rw [hn] at hHw; simp at hHw; omega)
       (fun c hc => ⟨(h.head H rfl c hc).1, (h.head H rfl c hc).2.1⟩)
       (by intro hn; rw [hn] at hrows2; simp at hrows2)
@@ -440,7 +443,7 @@ theorem sniffer_unambiguous (o : NumOracle F) (d : Char) (hdr : Option (List Str
     | nil => simp at hrows2
     | cons r0 rest =>
       have hr0w := hrw r0 (by simp)
-      have := hasHeader_core o d h.delim r0 rest
+      have := hasHeader_core o n d h.delim r0 rest
         (by intro hn; rw [hn] at hr0w; simp at hr0w; omega)
         (fun c hc => ⟨(h.data r0 (by simp) c hc).1, (h.data r0 (by simp) c hc).2.1⟩)
         (by intro hn; rw [hn] at hrows2; simp at hrows2)
